@@ -5,8 +5,6 @@ package main
 
 import (
 	"bytes"
-	"sync/atomic"
-	"github.com/chihaya/chihaya/pkg/stop"
 	"context"
 	"crypto"
 	"crypto/hmac"
@@ -19,12 +17,14 @@ import (
 	"encoding/json"
 	"errors"
 	"fmt"
+	"github.com/chihaya/chihaya/pkg/stop"
 	"math/big"
 	"net/http"
 	"net/http/httptest"
 	"sort"
 	"strings"
 	"sync"
+	"sync/atomic"
 	"time"
 
 	"github.com/chihaya/chihaya/bittorrent"
@@ -92,12 +92,12 @@ func (p paramsStub) RawPath() string  { return "/announce" }
 func (p paramsStub) RawQuery() string { return "" }
 
 type tokSpec struct {
-	present, garbage               bool
-	iss, aud, ihc, kid             string // "ok" | "bad" | "absent" (aud also "list", ihc also "upper"/"nonstring", kid also "nonstring")
-	alg                            string // RS256 | none | HS256 | RS512
-	signWith                       int    // index of signing key
-	corruptSig, corruptPayload     bool
-	exp, nbf                       string // absent | offset seconds
+	present, garbage           bool
+	iss, aud, ihc, kid         string // "ok" | "bad" | "absent" (aud also "list", ihc also "upper"/"nonstring", kid also "nonstring")
+	alg                        string // RS256 | none | HS256 | RS512
+	signWith                   int    // index of signing key
+	corruptSig, corruptPayload bool
+	exp, nbf                   string // absent | offset seconds
 }
 
 func signRS256(k *rsa.PrivateKey, input string) []byte {
@@ -157,9 +157,18 @@ func jwtLifecycle(c *Ctx, keys []*rsa.PrivateKey) {
 			return "hook-is-no-stopper"
 		}
 		stopped, _ := waitStop(st.Stop(), 3*time.Second)
-		time.Sleep(250 * time.Millisecond) // a fetch that was in flight when Stop was called may still arrive
+		// a fetch that was in flight when Stop was called may still arrive (late, on a loaded machine): wait until the
+		// count has stood still for a while, then watch it over ten update intervals
 		n1 := atomic.LoadInt32(&fetches)
-		time.Sleep(600 * time.Millisecond) // ten update intervals
+		for i := 0; i < 10; i++ {
+			time.Sleep(300 * time.Millisecond)
+			n := atomic.LoadInt32(&fetches)
+			if n == n1 {
+				break
+			}
+			n1 = n
+		}
+		time.Sleep(600 * time.Millisecond)
 		n2 := atomic.LoadInt32(&fetches)
 		second, _ := waitStop(st.Stop(), 3*time.Second)
 		return fmt.Sprintf("before=%s refreshed_in_background=%s stopped=%s quiet_after_stop=%s second_stop=%s", before, b01(refreshed), b01(stopped), b01(n1 == n2), b01(second))
